@@ -14,7 +14,7 @@ import (
 // well, because IsSQLi stops at the first context that fires.
 func c01() *core.Check {
 	quick := []Mix{
-		{Gen: "corpus"}, {Gen: "bytes"}, {Gen: "trunc"},
+		{Gen: "corpus"}, {Gen: "bytes"}, {Gen: "padded"}, {Gen: "trunc"},
 		{Gen: "atoms", Dict: "sqlcore", K: 3},
 		{Gen: "atoms", Dict: "sqledge", K: 5},
 		{Gen: "atoms", Dict: "sqlext", K: 2},
@@ -26,7 +26,7 @@ func c01() *core.Check {
 		{Gen: "scale", N: 288 << 10},
 	}
 	thorough := []Mix{
-		{Gen: "corpus"}, {Gen: "bytes"}, {Gen: "trunc"},
+		{Gen: "corpus"}, {Gen: "bytes"}, {Gen: "padded", N: 1}, {Gen: "trunc"},
 		{Gen: "atoms", Dict: "sqlcore", K: 4},
 		{Gen: "atoms", Dict: "sqledge", K: 7},
 		{Gen: "atoms", Dict: "sqlmid", K: 5},
@@ -141,7 +141,7 @@ func genWhitelistDirected(w *core.Worker, u core.Unit, emit func(core.Case)) {
 // uses O(1) stack, so the ceiling is not stricter than the property).
 func c02() *core.Check {
 	quick := []Mix{
-		{Gen: "corpus"}, {Gen: "bytes"}, {Gen: "trunc"},
+		{Gen: "corpus"}, {Gen: "bytes"}, {Gen: "padded"}, {Gen: "trunc"},
 		{Gen: "atoms", Dict: "htmlbytes", K: 4},
 		{Gen: "atoms", Dict: "htmlfull", K: 2},
 		{Gen: "seq", Dict: "htmlfull", N: 300000},
@@ -153,7 +153,7 @@ func c02() *core.Check {
 		{Gen: "triples", N: 48 << 10},
 	}
 	thorough := []Mix{
-		{Gen: "corpus"}, {Gen: "bytes"}, {Gen: "trunc"},
+		{Gen: "corpus"}, {Gen: "bytes"}, {Gen: "padded", N: 1}, {Gen: "trunc"},
 		{Gen: "atoms", Dict: "htmlbytes", K: 6},
 		{Gen: "atoms", Dict: "htmlfull", K: 3},
 		{Gen: "seq", Dict: "htmlfull", N: 3000000},
